@@ -12,7 +12,7 @@ W == Whole(Bytes, R.max)
 IsSig(m) == m.code \in 225..229
 Sum(s) == FoldFunction(LAMBDA a, b : (a + b) % 65521, 0, s)
 Summ(m) == [code |-> m.code, tok |-> m.tok, paylen |-> Len(m.pay), paysum |-> Sum(m.pay), nopts |-> Len(m.opts)]
-ExpMsgs == LET s == SelectSeq(W.out, LAMBDA m : ~IsSig(m)) IN [k \in 1..Len(s) |-> Summ(s[k])]
+ExpMsgs == LET s == SelectSeq(W.out, LAMBDA m : ~IsSig(m) /\ ~Refused(m)) IN [k \in 1..Len(s) |-> Summ(s[k])]
 ExpSigs == LET s == SelectSeq(W.out, LAMBDA m : IsSig(m)) IN [k \in 1..Len(s) |-> s[k].code]
 \* bytes needed before the connection must be closed: up to and including the header of the first bad frame
 RECURSIVE CloseAt(_, _)
